@@ -300,6 +300,9 @@ func (e *Enc) instr(fr *Frame, in ssa.Instruction, st *State, rb Term) (*State, 
 		if fr == fr.top && fr.contract != nil {
 			e.storeAsserts(fr, x, v, st, rb)
 		}
+		if g, ok := x.Addr.(*ssa.Global); ok && fr.top != nil && fr.top.contract != nil && fr.top.contract.WriteFrame {
+			e.ob(fr, "wframe", e.nextName(fr, "wframe"), rb, "false", "store to the package-level variable "+g.Name(), x.Pos())
+		}
 		st = e.Store(st, a, e.coerce(v, a.Typ))
 		if v.Clo != nil && a.Ref == "" && len(a.Path) == 0 {
 			e.cloStore(fr, a.Comp, v.Clo)
